@@ -94,6 +94,12 @@ def scenario(draw):
         payloads.append({"id": 1, "flavour": flv, "role": "trigger", "reg": {"how": "pre"}, "program": program, "end": end})
         trigger["flavour"] = flv
         trigger["end"] = end
+    elif trig == "shutdown" and draw(st.booleans()):
+        # stop()/shutdown() requested by a payload: a thread payload calls it, a coroutine payload lets a worker thread call it
+        flv = draw(st.sampled_from(ALL))
+        payloads.append({"id": 1, "flavour": flv, "role": "trigger", "reg": {"how": "pre"}, "end": ["forever"], "cleanup": {},
+                         "program": [["sleep", at], ["shutdown" if runner == "service" else "stop"]]})
+        trigger["flavour"] = flv
     else:
         drivers.append([{"at_ms": at, "op": trig if trig != "shutdown" else ("shutdown" if runner == "service" else "stop")}])
     drivers[0].sort(key=lambda s: s["at_ms"])
